@@ -103,6 +103,9 @@ def curated():
     #    the same with an ambiguous middle (terminal nodes shared between the alternatives)
     c.append(entry("decls-amb", [R(T, [T, S], 1, 1, [1, 2]), R(T, [S], 0, 0, [1]), R(S, [A, C, B], 2, 1, [1, 2, 3]), R(A, []), R(A, [1], 3, 1, [1]), R(B, []), R(B, [1], 4, 1, [1]),
                                  R(C, [1], 5, 1, [1]), R(C, [1, 1], 6, 1, [1, 2])], maxlen=4, alphabet=[1]))
+    # 21 a list of alternatives that is exponentially long (all derivations have the same translation; yaep_free_tree used to recurse
+    #    once per alternative and crashed on a dozen tokens):  S : # n | S b S # 2
+    c.append(entry("expalt", [R(S, [], 1, 1, []), R(S, [S, 2, S], 0, 0, [3])], maxlen=4, alphabet=[2], inputs=[[2] * 9, [2] * 12]))
     return c
 
 
@@ -446,4 +449,35 @@ def nested_nullable_family(seed, n):
         sents = [w for w in sents if len(w) >= 8][:8]
         inputs = list(sents) + damaged_inputs(sents, [1, 2], rnd, 1)
         out.append(entry("nestnull-%d-%d" % (seed, k), rules, terms=[{"n": 1, "c": 1}, {"n": 2, "c": 2}], maxlen=0, alphabet=[1, 2], inputs=inputs[:16]))
+    return out
+
+
+def ambig_chain_family():
+    """Ambiguity through unit chains of several depths, every order of the start symbol's alternatives and both rule orders: the
+    dynamic lookahead contexts (level 2) of the chain's situations depend on the order in which the set's situations were added
+    (a fixed point), and a context that is too small prunes one of the two derivations - the parse still succeeds.
+    S : a d | Y_k d | X c ; Y_k : Y_k-1 ; ... ; Y_1 : X ; X : a       a=1 c=2 d=3; every rule has its own abstract node."""
+    out = []
+    for depth in (1, 2, 3):
+        ys = [13 + i for i in range(depth)]          # Y_1 .. Y_depth
+        chain = [R(ys[0], [12])] + [R(ys[i], [ys[i - 1]]) for i in range(1, depth)] + [R(12, [1])]
+        for shape in ("head", "inner"):
+          # head: the chain starts the alternatives; inner: it follows a scanned terminal, so that the lookahead of the scanned
+          # situation is FIRST of the chain (S : p a e | p Y_k e | p X c)
+          alts = [R(11, [1, 3]), R(11, [ys[-1], 3]), R(11, [12, 2])] if shape == "head" else [R(11, [2, 1, 3]), R(11, [2, ys[-1], 3]), R(11, [2, 12, 2])]
+          for pi, perm in enumerate(itertools.permutations(range(3))):
+            for order in (0, 1):
+                  rules = [alts[i] for i in perm] + (chain if order == 0 else chain[::-1])
+                  rules = [dict(r, an=i + 1, c=1, t=list(range(1, len(r["r"]) + 1))) for i, r in enumerate(rules)]
+                  e = entry("ambchain-%s-%d-%d-%d" % (shape, depth, pi, order), rules, maxlen=(2 if shape == "head" else 3), alphabet=[1, 2, 3], inputs=([[1, 3], [1, 2]] if shape == "head" else [[2, 1, 3], [2, 1, 2]]))
+                  out.append(e)
+                  if depth >= 2 and pi in (0, 3, 5):
+                      # the same with more than 64 terminals (terminal sets of two machine words), dummies before or after the real ones
+                      for npad in (62, 70):
+                          for where in ("before", "after"):
+                              pads = [{"n": p, "c": p} for p in range(101, 101 + npad)]
+                              terms = pads + e["terms"] if where == "before" else e["terms"] + pads
+                              wr = rules + [dict(R(11, [101, 100 + npad]), an=len(rules) + 1, c=1, t=[1, 2])]
+                              out.append({"id": "%s-w%d%s" % (e["id"], npad, where[0]), "terms": terms, "rules": wr, "maxlen": 0, "alphabet": [1, 2, 3],
+                                          "inputs": ([[1, 3], [1, 2]] if shape == "head" else [[2, 1, 3], [2, 1, 2]]) + [[101, 100 + npad]]})
     return out
